@@ -73,7 +73,7 @@ CLAIMS.update({
     "C05": ("Lean 4 theorems: get_transfer_and_gas_tokens returns exactly the three shapes of the property and conserves value (transfer + gas = attached); transmit refuses zero amount / empty destination / untrusted chain; the emitted payload is the ABI encoding of exactly (type, token id, sender, destination, amount, data) (round trip by C06/C07); differential run (all balances compared after every step) + Lean judge on every outbound transfer of the real ITS",
             "Machine-checked proofs of the payment split (all payment lists, all gas values), of the refusal cases and of the payload contents; conservation across sender / token manager / gas service / service is decided on the real contracts by comparing every account's balances with the model after each operation and by the judge (sender delta = payments, custody or burn = transfer amount, one contract_call event with the payload hash, gas forwarded with sender as refund address, service balances unchanged).",
             ITS_NOTE, "DESIGN.md §3 C05"),
-    "C08": ("Lean 4 theorems: a locked (in-flight) message cannot start another delivery; exact shape of the success and failure callbacks; REFUTATION: if the token manager rejects the take-back (flow limit) the failure callback fails and the tokens stay in the service (finding F1), with the part that holds proved as _partial; differential run with execute / destination call / callback scheduled separately among other transactions + Lean judge on the real contracts",
+    "C08": ("Lean 4 theorems: a locked (in-flight) message cannot start another delivery; starting needs the exact gateway approval and sets the lock; OVER EVERY SCHEDULE the lock is cleared by nothing but the callback of that very delivery (frame of the whole dispatcher for the lock table, Proofs/ItsLock.step_lock), a successful delivery ends with the message executed, and an executed message can never start again (no schedule delivers twice); exact shape of the success and failure callbacks; REFUTATION: if the token manager rejects the take-back (flow limit) the failure callback fails and the tokens stay in the service (finding F1), with the part that holds proved as _partial; differential run with execute / destination call / callback scheduled separately among other transactions + Lean judge on the real contracts",
             "Machine-checked proofs of the single-shot lock and of the callback effects for all states; the full-strength 'never left behind in the service' is false on the unchanged code (known finding F1: flow-limit rejection of the take-back, replayed on the real contracts from corpus/C08 on every run). The real ITS, gateway and token manager are driven through all three steps with other transactions (including second executes of the same message, flow-limit changes, pauses) in between and judged on deliveries, custody and message state.",
             ITS_NOTE, "DESIGN.md §3 C08, §4 F1"),
     "C13": ("Lean 4 theorems over every trusted-address table and payload: get_execute_params unwraps only RECEIVE_FROM_HUB from the hub chain naming a hub-routed original chain and rejects direct messages from the hub chain; get_call_params sends to the trusted address, wraps for hub-routed chains to the hub's trusted address, refuses missing trust and the hub chain as destination; is_trusted_address characterisation; hub constants; execute / route_message use exactly these decisions; OVER EVERY SCHEDULE the trusted table changes only through the owner endpoints called by the owner (frame of the whole dispatcher, Proofs/ItsFrame.call_allowed, lifted to all operations by ItsHistory.step_change); differential run + judge on the real ITS",
@@ -88,7 +88,7 @@ CLAIMS.update({
     "C18": ("Lean 4 theorems: a token manager's recorded token survives every endpoint call and every later issuance callback (after fix aeb366e); the issuance callback records exactly the returned identifier or nothing; step 1 of an inbound deploy message reads exactly the approval for its fields and leaves the gateway unchanged, step 2 consumes it, an executed message drives neither step, and executed is absorbing over every schedule (one_issuance_per_message); zero-supply deployment without minter, or with the service as minter, is refused; differential run with issue calls / callbacks scheduled separately + Lean judge on the real ITS and token manager",
             "Machine-checked proofs of 'never replaced' over a complete case analysis of the token-manager endpoints and its callback, of the two-step use of the gateway approval, and of the refusal cases; the two-issuances-in-flight defect found by this check (F4) was repaired in /repo (fix: aeb366e) and its witness corpus/C18 runs first on every run. The real contracts are driven through the multi-call deployment flows (inbound and local) with system-contract outcomes chosen by the schedule and judged on approvals consumed, tokens recorded, supply minted and roles handed over.",
             ITS_NOTE, "DESIGN.md §3 C18, §4 F4"),
-    "C19": ("Lean 4 theorems: use_deploy_approval succeeds iff an approval is present for exactly (minter, token id, destination chain) and equals the hash of the requested destination minter, and then clears it (single use); approval-key binding (collision-or-equal); revoke clears only the caller's own key; differential run + Lean judge on approve / revoke / deployRemote…WithMinter of the real ITS",
+    "C19": ("Lean 4 theorems: use_deploy_approval succeeds iff an approval is present for exactly (minter, token id, destination chain) and equals the hash of the requested destination minter, and then clears it (single use); approval-key binding (collision-or-equal); revoke clears only the caller's own key; approve needs a caller the manager reports as minter (never the service itself) and a trusted chain; no local minter ⇒ no destination minter; OVER EVERY SCHEDULE an approval entry is only ever written under a key derived from the address of the account that makes the call, or cleared (Proofs/ItsApprovals.step_approvals); differential run + Lean judge on approve / revoke / deployRemote…WithMinter of the real ITS",
             "Machine-checked proofs for all states of the exactness and single use of destination-minter approvals and of key binding; the real service is run against the model over approve / revoke / deploy sequences by minters, former minters, non-minters and the service address, with matching and non-matching chains and minters, and judged by the rules of the property.",
             ITS_NOTE, "DESIGN.md §3 C19"),
     "C20": ("Lean 4 theorems: while paused each of the ten pausable endpoints of the model's dispatcher fails for every caller / argument list / payment (call_paused) and the whole transaction leaves the world unchanged (paused_transaction_changes_nothing); owner operations need the owner, setFlowLimits needs the operator role; OVER EVERY SCHEDULE the pause flag and trusted table change only by the owner endpoints called by the owner; pause then unpause restores the storage; sub-calls never touch the service's own storage; proof obligations over the table regenerated from the source on every run: every pausable endpoint reaches require_not_paused before any state change or external call, privileged endpoints carry only_owner / only_operator; differential run with pause / unpause interleaved + Lean judge on the real ITS",
